@@ -1,8 +1,10 @@
 (* C08/Properties.v — RADIUS messages take effect only when authenticated with the shared secret.
    Every theorem quantifies over the hash function [md5raw] (MD5 is an argument, not an axiom), over all
-   datagrams, configurations and histories.  The full theorems are about the [repaired] model (what the
-   fix patches under fixes/C08_*.patch implement); each [_refuted] lemma shows that the corresponding
-   statement fails for the behaviour of the unchanged code ([defective] / one repair flag off). *)
+   datagrams, configurations and histories.  Flag records: [repaired] = every repair in place; [head] = what
+   /repo HEAD implements (the four committed C08 fixes; the Event-Timestamp requirement of
+   fixes/C08_require_event_timestamp.patch not yet).  Theorems that do not depend on that requirement are
+   stated for every flag record with the relevant repair on, so they cover both.  Each [_refuted] lemma shows
+   that the statement fails when the named repair is off. *)
 From OV Require Import Common.Base C08.Model C08.Proofs.
 Import ListNotations.
 Local Open Scope list_scope.
@@ -16,9 +18,10 @@ Local Open Scope N_scope.
    server secret, and its Message-Authenticator verifies when present.  Since [awaiting] becomes None
    after a delivery, at most one datagram is accepted per request. *)
 Theorem C08_reply_authentic :
-  forall md5raw secret ops st outs,
+  forall md5raw fl, f_reply fl = true ->
+  forall secret ops st outs,
     Forall op_wf ops ->
-    crun md5raw repaired secret pending0 ops = (st, outs) ->
+    crun md5raw fl secret pending0 ops = (st, outs) ->
     deliveries_authentic md5raw secret (rev (events ops outs)).
 Proof. exact reply_authentic. Qed.
 Print Assumptions C08_reply_authentic.
@@ -26,14 +29,30 @@ Print Assumptions C08_reply_authentic.
 (* the same with unforgeability as an explicit premise about the world: if only datagrams issued by the
    key holder for a given request authenticator verify, only issued datagrams are ever acted upon *)
 Theorem C08_forged_not_acted_on :
-  forall md5raw secret (issued : bytes -> bytes -> Prop),
+  forall md5raw fl secret (issued : bytes -> bytes -> Prop),
+    f_reply fl = true ->
     (forall reqauth d, resp_auth_ok md5raw secret reqauth d = true -> issued reqauth d) ->
     forall ops st outs,
       Forall op_wf ops ->
-      crun md5raw repaired secret pending0 ops = (st, outs) ->
+      crun md5raw fl secret pending0 ops = (st, outs) ->
       deliveries_issued issued (rev (events ops outs)).
 Proof. exact forged_not_acted_on. Qed.
 Print Assumptions C08_forged_not_acted_on.
+
+(* Provider.Authenticate (one server, one try): whatever it returns other than an error was decided by a
+   datagram that is among those received, carries the identifier of the request, has the matching code
+   (Access-Accept for Allowed — with exactly the attributes extracted from THAT datagram — Access-Reject for
+   denied) and verifies against the authenticator of the request that was sent. *)
+Theorem C08_authenticate_authentic :
+  forall md5raw fl, f_reply fl = true ->
+  forall secret extract req dgs,
+    match authenticate md5raw fl secret extract req dgs with
+    | AAllowed attrs => decided_by md5raw secret req dgs 2 (fun p => attrs = extract (p_attrs p))
+    | ADenied => decided_by md5raw secret req dgs 3 (fun _ => True)
+    | AError => True
+    end.
+Proof. exact authenticate_authentic. Qed.
+Print Assumptions C08_authenticate_authentic.
 
 (* toy hash used only for concrete witnesses (the theorems hold for every function) *)
 Definition toy (l : bytes) : bytes := [fold_left (fun a x => (a * 31 + x + 7) mod 256) l 1].
@@ -49,7 +68,17 @@ Example C08_reply_authentic_nonvacuous :
 Proof. vm_compute. reflexivity. Qed.
 Print Assumptions C08_reply_authentic_nonvacuous.
 
-(* today's readLoop: the forged datagram is delivered although its authenticator does not verify *)
+Definition ex_reject : bytes :=
+  [3; 7; 0; 20] ++ md5 toy ([3; 7; 0; 20] ++ repeat 17 16 ++ ex_secret).
+Example C08_authenticate_authentic_nonvacuous :
+  authenticate toy head ex_secret (fun _ => []) ex_req [ex_forged; ex_genuine; ex_reject] = AAllowed [] /\
+  authenticate toy head ex_secret (fun _ => []) ex_req [ex_forged; ex_reject; ex_genuine] = ADenied /\
+  authenticate toy head ex_secret (fun _ => []) ex_req [ex_forged] = AError /\
+  authenticate toy defective ex_secret (fun _ => []) ex_req [ex_forged; ex_reject] = AAllowed [].
+Proof. vm_compute. repeat split; reflexivity. Qed.
+Print Assumptions C08_authenticate_authentic_nonvacuous.
+
+(* before commit 7e62e2a (f_reply off): the forged datagram is delivered although its authenticator does not verify *)
 Lemma C08_reply_authentic_refuted :
   exists md5raw secret ops st outs,
     Forall op_wf ops /\
@@ -67,8 +96,9 @@ Print Assumptions C08_reply_authentic_refuted.
    2. CoA / Disconnect admission.  A datagram makes the listener publish a mutation or terminate event
    only if its source lies in a configured client net (the first one that contains it), its Request
    Authenticator verifies under THAT client's secret, its Message-Authenticator verifies when present,
-   and its Event-Timestamp (when the window is enabled and the attribute present and non-zero) is within
-   the replay window of the local clock. *)
+   and — unless the operator disabled replay protection (window <= 0) — it carries a usable (4-octet,
+   non-zero) Event-Timestamp that lies within the replay window of the local clock.  [repaired] includes the
+   Event-Timestamp requirement of fixes/C08_require_event_timestamp.patch. *)
 Theorem C08_coa_admission :
   forall md5raw cfg now src bus raw e,
     effect (coa_step md5raw repaired cfg now src bus raw) = Some e ->
@@ -78,8 +108,9 @@ Theorem C08_coa_admission :
       parse raw = Some p /\
       req_auth_ok md5raw (c_secret c) (truncate raw) = true /\
       ma_req_ok_rfc md5raw (c_secret c) (truncate raw) = true /\
-      ((window cfg <= 0)%Z \/ event_ts (p_attrs p) = 0 \/
-       (- window cfg <= now - Z.of_N (event_ts (p_attrs p)) <= window cfg)%Z) /\
+      ((window cfg <= 0)%Z \/
+       (event_ts (p_attrs p) <> 0 /\
+        (- window cfg <= now - Z.of_N (event_ts (p_attrs p)) <= window cfg)%Z)) /\
       nasid_ok (nasid cfg) (p_attrs p) = true /\
       match e with EvMutation _ _ => p_code p = 43 | EvTerminate _ => p_code p = 40 end.
 Proof. exact coa_admission_thm. Qed.
@@ -105,8 +136,65 @@ Example C08_coa_admission_nonvacuous :
 Proof. vm_compute. repeat split; reflexivity. Qed.
 Print Assumptions C08_coa_admission_nonvacuous.
 
-(* today: a Disconnect-Request with an all-zero authenticator and no Message-Authenticator takes effect *)
-Lemma C08_coa_admission_refuted :
+(* What /repo HEAD guarantees today (Event-Timestamp not required): everything above, but the window is
+   enforced only on requests that carry a usable Event-Timestamp. *)
+Theorem C08_coa_admission_head_window_only_if_timestamped :
+  forall md5raw cfg now src bus raw e,
+    effect (coa_step md5raw head cfg now src bus raw) = Some e ->
+    exists cl c p,
+      nth_error (clients cfg) cl = Some c /\ contains c src = true /\
+      (forall j c', (j < cl)%nat -> nth_error (clients cfg) j = Some c' -> contains c' src = false) /\
+      parse raw = Some p /\
+      req_auth_ok md5raw (c_secret c) (truncate raw) = true /\
+      ma_req_ok_rfc md5raw (c_secret c) (truncate raw) = true /\
+      ((window cfg <= 0)%Z \/ event_ts (p_attrs p) = 0 \/
+       (- window cfg <= now - Z.of_N (event_ts (p_attrs p)) <= window cfg)%Z) /\
+      nasid_ok (nasid cfg) (p_attrs p) = true /\
+      match e with EvMutation _ _ => p_code p = 43 | EvTerminate _ => p_code p = 40 end.
+Proof. exact coa_admission_head_thm. Qed.
+Print Assumptions C08_coa_admission_head_window_only_if_timestamped.
+
+(* ... and that this is strictly weaker: on HEAD a correctly signed Disconnect-Request WITHOUT Event-Timestamp
+   takes effect at any time although the window is enabled (known finding
+   coa-without-event-timestamp-bypasses-window) *)
+Definition ex_dm_nots : bytes := sign_req [107] [40; 9; 0; 24] [44; 4; 115; 49].
+Lemma C08_coa_missing_timestamp_refuted :
+  exists md5raw cfg src bus raw p t,
+    (0 < window cfg)%Z /\ parse raw = Some p /\ event_ts (p_attrs p) = 0 /\
+    forall now, effect (coa_step md5raw head cfg now src bus raw) = Some (EvTerminate t).
+Proof.
+  exists toy, ex_cfg, 2130706434, 0, ex_dm_nots. eexists. exists (1, [115; 49]).
+  split; [reflexivity|]. split; [vm_compute; reflexivity|]. split; [vm_compute; reflexivity|].
+  intros now. unfold coa_step.
+  replace (find_client 0 (clients ex_cfg) 2130706434) with (Some (0%nat, {| c_addr := 2130706434; c_plen := 32; c_secret := [107] |}))
+    by (vm_compute; reflexivity).
+  cbv beta iota. vm_compute. reflexivity.
+Qed.
+Print Assumptions C08_coa_missing_timestamp_refuted.
+
+(* Replays.  The property's criterion is the window: a byte-identical copy of a request that arrives while its
+   Event-Timestamp is still inside the window satisfies every clause of the statement and is executed again
+   (RFC 5176 has no other replay defence; see notes/C08.md "Audit response").  What is guaranteed is that the
+   window bounds the replay: if one datagram takes effect at two instants they are at most 2*window apart,
+   i.e. a captured request is dead window seconds after its timestamp. *)
+Theorem C08_coa_replay_span_bounded :
+  forall md5raw cfg src raw now1 bus1 e1 now2 bus2 e2,
+    (0 < window cfg)%Z ->
+    effect (coa_step md5raw repaired cfg now1 src bus1 raw) = Some e1 ->
+    effect (coa_step md5raw repaired cfg now2 src bus2 raw) = Some e2 ->
+    (Z.abs (now1 - now2) <= 2 * window cfg)%Z.
+Proof. exact coa_replay_span_bounded. Qed.
+Print Assumptions C08_coa_replay_span_bounded.
+
+Example C08_coa_replay_span_nonvacuous :
+  effect (coa_step toy repaired ex_cfg 700 2130706434 0 ex_dm) = Some (EvTerminate (1, [115; 49])) /\
+  effect (coa_step toy repaired ex_cfg 1300 2130706434 0 ex_dm) = Some (EvTerminate (1, [115; 49])) /\
+  effect (coa_step toy repaired ex_cfg 1100 2130706434 0 ex_dm_nots) = None.
+Proof. vm_compute. repeat split; reflexivity. Qed.
+Print Assumptions C08_coa_replay_span_nonvacuous.
+
+(* before commit db29b2a (f_coaauth off): a Disconnect-Request with an all-zero authenticator and no Message-Authenticator takes effect *)
+Lemma C08_coa_unauthenticated_request_refuted :
   exists md5raw cfg now src bus raw e,
     effect (coa_step md5raw defective cfg now src bus raw) = Some e /\
     forall c, In c (clients cfg) -> req_auth_ok md5raw (c_secret c) (truncate raw) = false.
@@ -115,12 +203,12 @@ Proof.
   split; [vm_compute; reflexivity|].
   intros c [<-|[]]. vm_compute. reflexivity.
 Qed.
-Print Assumptions C08_coa_admission_refuted.
+Print Assumptions C08_coa_unauthenticated_request_refuted.
 
-(* today: the replay window is not applied to Disconnect-Request (all other repairs in place) *)
+(* before commit 331235d (f_dmwin off): the replay window is not applied to Disconnect-Request *)
 Lemma C08_disconnect_window_refuted :
   exists md5raw cfg now src bus raw p t,
-    effect (coa_step md5raw {| f_reply := true; f_coaauth := true; f_dmwin := false; f_white := true |}
+    effect (coa_step md5raw {| f_reply := true; f_coaauth := true; f_dmwin := false; f_white := true; f_tsreq := true |}
                      cfg now src bus raw) = Some (EvTerminate t) /\
     parse raw = Some p /\ window_ok (window cfg) now (p_attrs p) = false.
 Proof.
@@ -137,8 +225,8 @@ Print Assumptions C08_disconnect_window_refuted.
    resolved from the identification attributes of the packet alone.  A Disconnect takes effect only when the
    packet carries nothing but identification attributes. *)
 Theorem C08_coa_mutable_only :
-  forall md5raw cfg now src bus raw e,
-    effect (coa_step md5raw repaired cfg now src bus raw) = Some e ->
+  forall md5raw tsr cfg now src bus raw e,   (* flt true = repaired, flt false = head *)
+    effect (coa_step md5raw (flt tsr) cfg now src bus raw) = Some e ->
     exists p, parse raw = Some p /\
       match e with
       | EvMutation t delta =>
@@ -155,12 +243,12 @@ Theorem C08_mutable_set_excludes_identity :
 Proof. exact allowed_disjoint_strip. Qed.
 Print Assumptions C08_mutable_set_excludes_identity.
 
-(* CoA carrying the osvbng VSA 1 (l2gw.handoff-group = "g"), correctly signed *)
-Definition ex_l2gw_body : bytes := [44; 4; 115; 49; 26; 9; 0; 0; 126; 217; 1; 3; 103].
-Definition ex_l2gw : bytes := sign_req [107] [43; 9; 0; 33] ex_l2gw_body.
+(* before commit 6f22cf3 (f_white off): CoA carrying the osvbng VSA 1 (l2gw.handoff-group = "g"), correctly signed *)
+Definition ex_l2gw_body : bytes := [44; 4; 115; 49; 26; 9; 0; 0; 126; 217; 1; 3; 103; 55; 6; 0; 0; 3; 232].
+Definition ex_l2gw : bytes := sign_req [107] [43; 9; 0; 39] ex_l2gw_body.
 Lemma C08_coa_mutable_only_refuted :
   exists md5raw cfg now src bus raw t delta,
-    effect (coa_step md5raw {| f_reply := true; f_coaauth := true; f_dmwin := true; f_white := false |}
+    effect (coa_step md5raw {| f_reply := true; f_coaauth := true; f_dmwin := true; f_white := false; f_tsreq := true |}
                      cfg now src bus raw) = Some (EvMutation t delta) /\
     all_allowed delta = false.
 Proof.
@@ -175,9 +263,10 @@ Print Assumptions C08_coa_mutable_only_refuted.
    the request authenticator under the client's secret, the Message-Authenticator verifies (it is
    present whenever the request carried one).  This pins the order MA-then-Response-Authenticator. *)
 Theorem C08_own_replies_verify :
-  forall md5raw secret reqraw p code cause,
+  forall md5raw fl secret reqraw p code cause,
+    f_coaauth fl = true ->
     (20 <= length reqraw)%nat ->
-    let reply := build_coa_reply md5raw repaired secret reqraw p code cause in
+    let reply := build_coa_reply md5raw fl secret reqraw p code cause in
     resp_auth_ok md5raw secret (sub 4 16 reqraw) reply = true /\
     ma_resp_ok md5raw secret (sub 4 16 reqraw) reply = true /\
     (find_attr80 reqraw <> None -> find_attr80 reply <> None).
@@ -193,7 +282,7 @@ Example C08_own_replies_verify_nonvacuous :
 Proof. eexists. split; [vm_compute; reflexivity|]. vm_compute. split; reflexivity. Qed.
 Print Assumptions C08_own_replies_verify_nonvacuous.
 
-(* today's sendResponse: neither authenticator of the reply to a request with MA verifies *)
+(* before commit db29b2a (f_coaauth off): sendResponse — neither authenticator of the reply to a request with MA verifies *)
 Lemma C08_own_replies_verify_refuted :
   exists md5raw secret reqraw p code cause,
     parse reqraw = Some p /\
